@@ -1,4 +1,6 @@
 import Rtsp.Proofs.FrameRT3
+import Rtsp.Proofs.FrameLimits3
+import Rtsp.Proofs.B64Stream
 /-
 C04 — RTSP framing round-trips for any chunking and carrier.
 
@@ -89,6 +91,127 @@ theorem strict_prefix_needs_more (up : Bytes → Option Bytes) (pre suf : Bytes)
   | more hd => exact ⟨hd, rfl⟩
   | err => have h1 := this.2 hp; rw [h] at h1; cases h1
 
+/-! ## Carriers -/
+
+/-- **b64_stream**: blocks written through the HTTP tunnel (`clientTunnelHTTP.Write` encodes every
+write on its own, with padding) are delivered by the base64 stream reader as their concatenation,
+for every partition of the encoded stream into reads (reads that split a quantum or a padding,
+1-byte reads, empty reads and padding in the middle of the stream included). -/
+theorem b64_stream (blocks reads : List Bytes) (h : reads.flatten = (blocks.map encode).flatten) :
+    b64run [] reads = (blocks.flatten, .eof) :=
+  Rtsp.Frame.b64_stream blocks reads h
+
+/-- HTTP tunnel: a sequence of well-formed elements, cut into writes in any way, each write
+base64-encoded as one padded block, the encoded stream cut into reads in any way, is read by
+`conn.Conn` over the base64 stream reader as the same sequence. -/
+theorem tunnel_roundtrip (up : Bytes → Option Bytes) (ms : List Elem) (h : ∀ m ∈ ms, WellFormed up m)
+    (writes reads : List Bytes) (hw : writes.flatten = serializeAll ms)
+    (hr : reads.flatten = (writes.map encode).flatten) :
+    tunnelRead up reads = (ms, .eof) := by
+  simp only [tunnelRead, Rtsp.Frame.b64_stream writes reads hr, hw, Rtsp.Frame.parse_serialize up ms h]
+  simp
+
+/-- WebSocket tunnel: every write is one binary message; `wsReader` hands the messages out in
+pieces (`copy(p, r.buf)`), so the reads are a refinement of the writes — a partition of the same
+byte stream (the message-boundary contract of gorilla/websocket is assumed, its framing is not
+modelled). -/
+theorem websocket_roundtrip (up : Bytes → Option Bytes) (ms : List Elem) (h : ∀ m ∈ ms, WellFormed up m)
+    (messages reads : List Bytes) (hw : messages.flatten = serializeAll ms) (hr : reads.flatten = messages.flatten) :
+    readAll up [] reads = (ms, .eof) :=
+  Rtsp.Frame.parse_serialize_chunked up ms h reads (hr.trans hw)
+
+/-! ## Limits -/
+
+/-- **limits_output**: whatever bytes arrive, an element returned by `Conn.Read` is within the
+limits (method < 64, URL token < 2048, ≤ 255 header entries, key < 512, value < 2048, body ≤ 128 KiB,
+status code < 1000, status message < 255, channel < 256, payload < 64 KiB): an element beyond a
+limit is never delivered. -/
+theorem limits_output (up : Bytes → Option Bytes) (bs : Bytes) (e : Elem) (rest : Bytes)
+    (h : readElem up bs = .ok e rest) : ElemBounded up e :=
+  Rtsp.Frame.limits_output up bs e rest h
+
+theorem elemBounded_iff (up : Bytes → Option Bytes) (e : Elem) : ElemBounded up e ↔
+    match e with
+    | .req r =>
+      r.method.length < requestMaxMethodLength ∧
+      (∀ u, r.url = some u → ∃ raw, raw.length < requestMaxURLLength ∧ up raw = some u) ∧
+      HeaderBounded headerMaxEntryCount r.header ∧ r.body.length ≤ rtspMaxBodySize
+    | .res r =>
+      r.code < 1000 ∧ r.msg.length < responseMaxStatusMessageLength ∧
+      HeaderBounded headerMaxEntryCount r.header ∧ r.body.length ≤ rtspMaxBodySize
+    | .frame f => f.channel < 256 ∧ f.payload.length < 65536 := by
+  cases e <;> exact Iff.rfl
+
+theorem headerBounded_iff (n : Nat) (h : Header) : HeaderBounded n h ↔
+    (entryCount h ≤ n ∧ ∀ e ∈ h, e.1.length < headerMaxKeyLength ∧ ∀ v ∈ e.2, v.length < headerValueReadLimit) := Iff.rfl
+
+/-- **limits_enforced**, token level: a field that is not delimited within its limit `n` is
+refused with an error as soon as `n` bytes of it are there — the reader never looks further
+(`readBytesLimited` peeks at most `n` bytes: the memory bound of one field) -/
+theorem limits_enforced_token (d : UInt8) (n : Nat) (bs more : Bytes) (hl : n ≤ bs.length) (hd : d ∉ bs.take n) :
+    readLim d n (bs ++ more) = .err := by
+  apply readLim_refuses
+  · simp; omega
+  · rw [List.take_append_of_le_length hl]; exact hd
+
+/-- **limits_enforced**, method -/
+theorem limits_enforced_method (up : Bytes → Option Bytes) (b0 b1 : UInt8) (t : Bytes) (h : isReqPrefix b0 b1 = true)
+    (hl : requestMaxMethodLength ≤ (b0 :: b1 :: t).length) (hs : SP ∉ (b0 :: b1 :: t).take requestMaxMethodLength) :
+    readElem up (b0 :: b1 :: t) = .err :=
+  refuses_long_method up b0 b1 t h hl hs
+
+/-- **limits_enforced**, URL -/
+theorem limits_enforced_url (up : Bytes → Option Bytes) (b0 b1 : UInt8) (m X : Bytes) (h : isReqPrefix b0 b1 = true)
+    (hmsp : SP ∉ b0 :: b1 :: m) (hmlen : (b0 :: b1 :: m).length < requestMaxMethodLength)
+    (hl : requestMaxURLLength ≤ X.length) (hs : SP ∉ X.take requestMaxURLLength) :
+    readElem up (b0 :: b1 :: (m ++ SP :: X)) = .err :=
+  refuses_long_url up b0 b1 m X h hmsp hmlen hl hs
+
+/-- **limits_enforced**, header key and value (inside any header block with entries left) -/
+theorem limits_enforced_key (fuel : Nat) (acc : Header) (b : UInt8) (t : Bytes)
+    (hb : b ≠ CR) (hl : headerKeyReadLimit ≤ t.length) (hc : COLON ∉ t.take headerKeyReadLimit) :
+    parseHeaders (fuel + 1) acc (b :: t) = .err :=
+  parseHeaders_refuses_key fuel acc b t hb hl hc
+
+theorem limits_enforced_value (fuel : Nat) (acc : Header) (k v : Bytes) (hk : KeyOK k)
+    (hsp : v.head? ≠ some SP) (hl : headerValueReadLimit ≤ v.length) (hc : CR ∉ v.take headerValueReadLimit) :
+    parseHeaders (fuel + 1) acc (k ++ [COLON, SP] ++ v) = .err :=
+  parseHeaders_refuses_value fuel acc k v hk hsp hl hc
+
+/-- **limits_enforced**, header count: a response that is well-formed except that it carries more
+than 255 header entries (10^6, say) is refused with an error, whatever follows -/
+theorem limits_enforced_header_count (up : Bytes → Option Bytes) (code : Nat) (msg : Bytes) (h : Header) (rest : Bytes)
+    (hcode : code < 1000) (hmcr : CR ∉ msg) (hmlen : msg.length < responseMaxStatusMessageLength)
+    (hs : HeaderShape h) (hc : headerMaxEntryCount < entryCount h) :
+    readElem up (rtsp10 ++ SP :: (toDec code ++ SP :: (msg ++ CR :: (LF :: (marshalHeader h ++ rest))))) = .err :=
+  refuses_header_count_response up code msg h rest hcode hmcr hmlen hs hc
+
+theorem limits_enforced_header_count_request (up : Bytes → Option Bytes) (r : Request) (rest : Bytes)
+    (hm : ∃ b0 b1 t, r.method = b0 :: b1 :: t ∧ isReqPrefix b0 b1 = true)
+    (hmsp : SP ∉ r.method) (hmlen : r.method.length < requestMaxMethodLength)
+    (hurl : ∀ u, r.url = some u → u ≠ star ∧ SP ∉ u ∧ u.length < requestMaxURLLength ∧ up u = some u)
+    (hs : HeaderShape (withContentLength r.header r.body))
+    (hc : headerMaxEntryCount < entryCount (withContentLength r.header r.body)) :
+    readElem up (marshalRequest r ++ rest) = .err :=
+  refuses_header_count_request up r rest hm hmsp hmlen hurl hs hc
+
+/-- **limits_enforced**, body: a `Content-Length` above 128 KiB (1 GiB, 2^64 …) is refused with an
+error as soon as the header block is complete; the body is not waited for and (in the real code)
+not allocated -/
+theorem limits_enforced_body (up : Bytes → Option Bytes) (code : Nat) (msg : Bytes) (h : Header) (n : Nat) (rest : Bytes)
+    (hcode : code < 1000) (hmcr : CR ∉ msg) (hmlen : msg.length < responseMaxStatusMessageLength)
+    (hh : HeaderOK h) (hl : hlookup h kContentLength = some [toDec n]) (hn : rtspMaxBodySize < n) :
+    readElem up (rtsp10 ++ SP :: (toDec code ++ SP :: (msg ++ CR :: (LF :: (marshalHeader h ++ rest))))) = .err :=
+  refuses_body_response up code msg h n rest hcode hmcr hmlen hh hl hn
+
+theorem limits_enforced_body_request (up : Bytes → Option Bytes) (method : Bytes) (url : Option Bytes) (h : Header) (n : Nat) (rest : Bytes)
+    (hm : ∃ b0 b1 t, method = b0 :: b1 :: t ∧ isReqPrefix b0 b1 = true)
+    (hmsp : SP ∉ method) (hmlen : method.length < requestMaxMethodLength)
+    (hurl : ∀ u, url = some u → u ≠ star ∧ SP ∉ u ∧ u.length < requestMaxURLLength ∧ up u = some u)
+    (hh : HeaderOK h) (hl : hlookup h kContentLength = some [toDec n]) (hn : rtspMaxBodySize < n) :
+    readElem up (method ++ SP :: (url.getD star ++ SP :: (rtsp10 ++ CR :: (LF :: (marshalHeader h ++ rest))))) = .err :=
+  refuses_body_request up method url h n rest hm hmsp hmlen hurl hh hl hn
+
 /-! ## Non-vacuity -/
 
 def sampleRequest : Request :=
@@ -134,10 +257,58 @@ example : parseAll (fun u => some u) (serializeAll [Elem.req sampleRequest, .res
   parse_serialize _ _ sample_wellFormed
 
 /-- test (one input, evaluated by the kernel): 1-byte chunks -/
-example : readAll (fun u => some u) [] ((serializeAll [Elem.res sampleResponse, .frame sampleFrame]).map fun b => [b])
-    = ([Elem.res sampleResponse, .frame sampleFrame], .eof) := by decide
+example : readAll (fun u => some u) [] ((serializeAll [Elem.frame sampleFrame, .frame sampleFrame]).map fun b => [b])
+    = ([Elem.frame sampleFrame, .frame sampleFrame], .eof) := by decide
 
 /-- test: a strict prefix is undecided (non-vacuity of `strict_prefix_needs_more`) -/
 example : readElem (fun u => some u) (marshalFrame sampleFrame) = .ok (.frame sampleFrame) [] := by decide
+
+/-- non-vacuity of `b64_stream`: blocks of every length class, reads of one byte (every quantum
+and every padding is split) -/
+example : ((encode [1] ++ encode [2, 3] ++ encode [4, 5, 6] ++ encode [7, 8, 9, 10]).map fun b => [b]).flatten
+    = ([[1], [2, 3], [4, 5, 6], [7, 8, 9, 10]].map encode).flatten := by decide
+
+/-- test: the same instance evaluated -/
+example : b64run [] ((encode [1] ++ encode [2, 3] ++ encode [4, 5, 6] ++ encode [7, 8, 9, 10]).map fun b => [b])
+    = ([1, 2, 3, 4, 5, 6, 7, 8, 9, 10], .eof) := by decide
+
+/-- non-vacuity of `limits_enforced_method`: `OP` followed by 70 `T`s -/
+example : readElem (fun u => some u) (79 :: 80 :: List.replicate 70 84) = .err :=
+  limits_enforced_method _ 79 80 _ (by decide) (by decide) (by decide)
+
+/-- non-vacuity of `limits_enforced_header_count`: one key with 256 values -/
+theorem manyValues_shape : HeaderShape [(kCSeq, List.replicate 256 (str "1"))] := by
+  refine ⟨?_, List.pairwise_singleton _ _⟩
+  intro e he
+  simp only [List.mem_singleton] at he
+  subst he
+  refine ⟨⟨by decide, 67, str "Seq", by decide, by decide, by decide, by decide⟩,
+    List.ne_nil_of_length_pos (by rw [List.length_replicate]; decide), ?_⟩
+  intro v hv
+  rw [List.eq_of_mem_replicate hv]
+  decide
+
+theorem entryCount_single (k : Bytes) (vs : List Bytes) : entryCount [(k, vs)] = vs.length := by
+  simp [entryCount]
+
+example (rest : Bytes) : readElem (fun u => some u)
+    (rtsp10 ++ SP :: (toDec 200 ++ SP :: (str "OK" ++ CR :: (LF ::
+      (marshalHeader [(kCSeq, List.replicate 256 (str "1"))] ++ rest))))) = .err :=
+  limits_enforced_header_count _ 200 (str "OK") _ rest (by decide) (by decide) (by decide) manyValues_shape
+    (by rw [entryCount_single, List.length_replicate]; decide)
+
+/-- non-vacuity of `limits_enforced_body`: `Content-Length: 1073741824` -/
+theorem oneGiB_headerOK : HeaderOK [(kContentLength, [toDec 1073741824])] := by
+  refine ⟨?_, List.pairwise_singleton _ _, by decide⟩
+  intro e he
+  simp only [List.mem_singleton] at he
+  subst he
+  exact ⟨⟨by decide, 67, str "ontent-Length", by decide, by decide, by decide, by decide⟩, by simp, by decide⟩
+
+example (rest : Bytes) : readElem (fun u => some u)
+    (rtsp10 ++ SP :: (toDec 200 ++ SP :: (str "OK" ++ CR :: (LF ::
+      (marshalHeader [(kContentLength, [toDec 1073741824])] ++ rest))))) = .err :=
+  limits_enforced_body _ 200 (str "OK") _ 1073741824 rest (by decide) (by decide) (by decide) oneGiB_headerOK
+    (by decide) (by decide)
 
 end Rtsp.C04
